@@ -1,6 +1,7 @@
 package term
 
 import (
+	"fmt"
 	"strings"
 
 	"git.sr.ht/~rockorager/vaxis"
@@ -163,5 +164,37 @@ func VerifC12Frames() {
 		}
 	}
 	zzverif.Assert(hostOK, "host-window-shows-the-same-cells")
+	zzverif.Reach("end")
+}
+
+// VerifC12Replies: Vaxis's start-up queries are fed to the emulator (real parser, real
+// update); the bytes the emulator writes back are fed to Vaxis's input side (real parser,
+// real handleSequence): what Vaxis concludes is exactly what the emulator implements: sixel
+// graphics and nothing else (no synchronized output, Unicode core, colour-scheme updates,
+// kitty keyboard or graphics, RGB, styled underlines, in-band resize, explicit width), the
+// device-attributes marker last, and no reply is taken for user input.
+func VerifC12Replies() {
+	vt := verifModel(4, 2)
+	for _, q := range vaxis.VerifStartupQueries() {
+		verifFeedBytes(vt, []byte(q))
+	}
+	reply := zzverif.FileLog(vt.pty)
+	names, probeCol := vaxis.VerifUnderstoodReplies(reply)
+	want := []string{"sixel", "da1"}
+	same := len(names) == len(want)
+	for i := 0; same && i < len(want); i++ {
+		same = names[i] == want[i]
+	}
+	zzverif.Assert(same, "vaxis-concludes-exactly-what-the-emulator-implements")
+	// explicit-width probe: the emulator does not implement OSC 66, the cursor must not have
+	// advanced (column 0), i.e. Vaxis does not conclude explicit-width support
+	zzverif.Assert(probeCol == 0, "explicit-width-probe-answered-as-unsupported")
+	// any DEC private mode report request (free 16-bit mode number): none of the modes Vaxis
+	// asks about is implemented by the emulator, so no report may announce one
+	vt2 := verifModel(4, 2)
+	mode := int(zzverif.Uint16("mode"))
+	verifFeedBytes(vt2, []byte(fmt.Sprintf("\x1b[?%d$p", mode)))
+	names2, _ := vaxis.VerifUnderstoodReplies(zzverif.FileLog(vt2.pty))
+	zzverif.Assert(len(names2) == 0, "no-mode-report-announces-an-unimplemented-feature")
 	zzverif.Reach("end")
 }
